@@ -239,9 +239,9 @@ pub fn math_{op}(t1: &Primitive, t2: &Primitive) -> (r: Option<Primitive>)
 {render(b_full, 1)}
 }}
 """)
-        obls.append(Obl(f"{tag}.{op}.integer-cells", ["C17"] if strict else ["C05", "C02", "C06"], fn=f"math_no_f64_{op}",
+        obls.append(Obl(f"{tag}.{op}.integer-cells", ["C17"] if strict else ["C05", "C02", "C06", "C01"], fn=f"math_no_f64_{op}",
                         desc=f"the 9 integer cells of `{SYM[op]}`: promoted kind and exact value ({'no Rust panic' if strict else 'a value is produced only when representable and the divisor is non-zero'}), all operand values"))
-        obls.append(Obl(f"{tag}.{op}.all-cells", ["C17"] if strict else ["C05", "C02", "C06"], fn=f"math_{op}",
+        obls.append(Obl(f"{tag}.{op}.all-cells", ["C17"] if strict else ["C05", "C02", "C06", "C01"], fn=f"math_{op}",
                         desc=f"all 16 kind pairs of `{SYM[op]}`: promoted kind; float cells = IEEE operation on the converted operands"))
         if op in ("div", "rem"):
             rel = f"bytecode/src/variables/ops/{op}.rs"
@@ -274,7 +274,7 @@ pub fn {op}_op(this: &Primitive, rhs: &Primitive) -> (r: Result<Primitive, VErr>
 {render(b, 1)}
 }}
 """)
-            obls.append(Obl(f"{tag}.{op}.operator", ["C17"] if strict else ["C05", "C02", "C06"], fn=f"{op}_op",
+            obls.append(Obl(f"{tag}.{op}.operator", ["C17"] if strict else ["C05", "C02", "C06", "C01"], fn=f"{op}_op",
                             desc=f"`{SYM[op]}` operator impl: zero divisor of any kind fails; otherwise the macro's result; non-numeric operands fail"))
         else:
             rel = "bytecode/src/variables/ops/mul.rs"
@@ -285,7 +285,7 @@ pub fn {op}_op(this: &Primitive, rhs: &Primitive) -> (r: Result<Primitive, VErr>
     return gen, obls, log
 
 
-U1 = VUnit("c05_muldiv", ["C05", "C02", "C06"], "* / % : all kind pairs, all operand values (V-t, partial mode)", lambda repo: build_mode(repo, False))
+U1 = VUnit("c05_muldiv", ["C05", "C02", "C06", "C01"], "* / % : all kind pairs, all operand values (V-t, partial mode)", lambda repo: build_mode(repo, False))
 U1.assumes = ["machine multiplication/division/remainder of i32/i128/u8 have Rust's dev-profile semantics: exact result or panic (overflow-checks on); truncating division and remainder with the sign of the dividend are Rust's definitions",
               "IEEE-754 double operations and int->double conversions are uninterpreted functions shared by code and spec",
               "the non-numeric arms of mul.rs (string/vector repetition) are outside this unit"]
